@@ -24,8 +24,10 @@ def _subexps(e):
 def plan_tags(pr, plan):
     """structural features of an original plan used to key known findings to the specific input shape"""
     tags = set()
-    if len(pr.user_types) > 1 and any(e.is_equals() for a in pr.actions for c in a.preconditions for e in _subexps(c)):
-        tags.add("equality-under-hierarchical-typing")
+    if len(pr.user_types) > 1 and (any(e.is_equals() for a in pr.actions for c in a.preconditions for e in _subexps(c)) or
+                                   any(e.is_equals() for g in pr.goals for e in _subexps(g)) or
+                                   any(e.is_equals() for a in pr.actions for eff in a.effects for e in _subexps(eff.condition))):
+        tags.add("equality-under-hierarchical-typing")     # wherever the negative-conditions remover rewrites conditions: preconditions, goals, effect conditions
     for a, ps in plan:
         seen = {}
         for e in a.effects:
